@@ -331,7 +331,9 @@ func mutateTree(t *rapid.T, root *model.YNode) string {
 var typeTokens = []string{"int", "string", "Foo", "Rec0", "T", "Main.Rec0", "float", "<", ">", ",", "*", "?", "[", "]", "(", ")", "->", ":", "3", "0", "x", "y", " ", "<int>", "[]", "[,]", "*2", "??", "99999999999999999999", "-1", "."}
 var exprTokens = []string{"a", "v", "fv", "arr", "narr", "farr", "m", "o", "u", "r", "s", "e", "1", "2", "0", "-1", "1.5", "0x10", "'x'", "\"y\"", "+", "-", "*", "/", "**", "(", ")", "[", "]", ",", ":", ".", " as ", "int", "float64", "string", "size", "dimensionIndex", "dimensionCount", "x", "y", "b", " ", "99999999999999999999", "[]", "()", "[0]", "[x:0]", "[0,0]", "[x:0,y:0]", ".b", "size(", "!", "?", "_"}
 
-var hostFields = []string{"a", "v", "fv", "arr", "narr", "unarr", "farr", "m", "o", "u", "nu", "r", "s", "e", "d", "u8", "i64", "zz", "r.b", "r.w"}
+var hostFields = []string{"a", "v", "fv", "arr", "narr", "unarr", "farr", "m", "o", "u", "nu", "r", "s", "e", "d", "u8", "i64", "zz", "r.b", "r.w",
+	// the computed fields of the same record (themselves included: reference cycles, forward references)
+	"c0", "c1", "c2", "sw", "c0", "sw"}
 
 // genExpr builds a syntactically well-formed (but semantically arbitrary) expression.
 func genExpr(t *rapid.T, depth int) string {
